@@ -279,36 +279,45 @@ Definition new_unit (t : sty) (before after v u : Z) : Z :=
   wrap (sbits t) (rmw (bitsk (qbase t)) before (sbits t - before - after) v
                       (ext_unit (ssigned t) (sbits t) (bitsk (qbase t)) u)).
 
-Theorem bits_store_correct fo t env m addr a vr v (n : positive) u before after :
-  bf_pos t before after -> 0 < before + after -> ref_lt n addr -> ref_lt n vr ->
-  read env Kl addr = Ok a -> read env (qbase t) vr = Ok v -> 0 <= v < modk (qbase t) ->
-  mem_load m a (Z.to_nat (ssize t)) = Some u -> 0 <= u < 2 ^ sbits t ->
-  exists env' m' x,
-    exec fo (env, m) (snd (fst (funcstore t addr before after vr n))) = Ok (env', m') /\
-    mem_store m a (Z.to_nat (ssize t)) (rmw (bitsk (qbase t)) before (sbits t - before - after) v
-                      (ext_unit (ssigned t) (sbits t) (bitsk (qbase t)) u)) = Some m' /\
-    mem_load m' a (Z.to_nat (ssize t)) = Some (new_unit t before after v u) /\
-    read env' (qbase t) (fst (fst (funcstore t addr before after vr n))) = Ok x /\
-    x = fb_val (ssigned t) (bitsk (qbase t)) (sbits t) before after (wrap (bitsk (qbase t)) (v * 2 ^ before)) /\
-    agree_below n env env' /\ (n <= snd (funcstore t addr before after vr n))%positive.
+(* the register handed to funcbits for the value of the assignment expression: the shifted value, extended from
+   the unit's width when the member ends at the top of a 1- or 2-byte unit *)
+Definition store_reg (t : sty) (after v1 : Z) : Z :=
+  if store_top t after then ext_unit (ssigned t) (sbits t) (bitsk (qbase t)) (wrap (sbits t) v1) else v1.
+
+Lemma store_ext_val t v1 : bf_type t = true -> ssize t < 4 ->
+  qbase t = Kw /\ ext_val (store_ext t) Kw v1 = ext_unit (ssigned t) (sbits t) (bitsk (qbase t)) (wrap (sbits t) v1).
 Proof.
-  intros BP Pos La Lv Ra Rv Hv L Hu. pose proof BP as [BT Hb Ha Hw].
+  intros BT L. destruct t as [[] []| | | |]; try discriminate; cbn [ssize zsize] in L; try lia; split; try reflexivity;
+    unfold store_ext, ext_val, ext_unit, sbits; cbn [ssize zsize ssigned qbase bitsk wide Z.eqb Pos.eqb Z.mul Pos.mul].
+  - rewrite wrapk_wrap. change two8 with (2 ^ 8). rewrite sextm_sext by lia. rewrite sext_of_wrap by lia. reflexivity.
+  - rewrite wrapk_wrap. change two16 with (2 ^ 16). rewrite sextm_sext by lia. rewrite sext_of_wrap by lia. reflexivity.
+Qed.
+
+Lemma store_tail_exec fo t env0 envb m addr a (n nb : positive) r0 xr v1 u before after :
+  bf_pos t before after ->
+  let k := qbase t in let N := bitsk k in let S := sbits t in let w := S - before - after in
+  (n < nb)%positive -> ref_lt n addr -> agree_below n env0 envb ->
+  read envb Kl addr = Ok a -> read envb k (RTmp n) = Ok v1 -> 0 <= v1 < modk k ->
+  read envb k r0 = Ok xr -> 0 <= xr < modk k -> ref_lt nb r0 ->
+  mem_load m a (Z.to_nat (ssize t)) = Some u -> 0 <= u < 2 ^ S ->
+  exists env' m' x,
+    exec fo (envb, m) (snd (fst (funcstore_tail t addr before after (RTmp n) r0 nb))) = Ok (env', m') /\
+    mem_store m a (Z.to_nat (ssize t))
+      (Z.lor (Z.land v1 (field_mask w before)) (Z.land (ext_unit (ssigned t) S N u) (2 ^ N - 1 - field_mask w before))) = Some m' /\
+    mem_load m' a (Z.to_nat (ssize t)) =
+      Some (wrap S (Z.lor (Z.land v1 (field_mask w before)) (Z.land (ext_unit (ssigned t) S N u) (2 ^ N - 1 - field_mask w before)))) /\
+    read env' k (fst (fst (funcstore_tail t addr before after (RTmp n) r0 nb))) = Ok x /\
+    x = fb_val (ssigned t) N S before after xr /\
+    agree_below n env0 env' /\ (nb <= snd (funcstore_tail t addr before after (RTmp n) r0 nb))%positive.
+Proof.
+  intros BP k N S w Lnb La A0 Ra Rn Rv1 Rr Rxr Lr L Hu. pose proof BP as [BT Hb Ha Hw].
   destruct (bf_type_facts t BT) as (_ & Ik & HS & _ & PN & Mk & K64 & LB & SB & S8 & SC).
-  set (k := qbase t) in *. set (N := bitsk k) in *. set (S := sbits t) in *. set (w := S - before - after).
-  unfold funcstore. rewrite PN. fold k.
-  destruct (Z.eqb_spec (before + after) 0) as [Z0|_]; [lia|].
-  unfold gbind, ginst, ginst0, gret.
-  (* 1: shl by before *)
-  set (v1 := wrap N (v * 2 ^ before)).
-  assert (E1 : eval_pure fo env (Obin Bshl) k vr (Some (mkint before)) = Ok v1).
-  { apply (eval_shift fo env Bshl k vr v before); try assumption; try reflexivity; [fold N; lia|]. apply ibin_shl. fold N. lia. }
-  assert (Rv1 : 0 <= v1 < modk k) by (rewrite Mk; apply wrap_range; unfold N; lia).
-  set (env1 := PM.add n (k, v1) env).
-  (* 2: funcbits on the shifted value *)
-  destruct (funcbits_exec fo t env1 m (RTmp n) (Pos.succ n) v1 before after BP) as (env2 & x & A2 & B2 & C2 & D2 & F2 & G2);
-    [simpl; lia|apply read_gss|exact Rv1|].
-  destruct (funcbits t (RTmp n) before after (Pos.succ n)) as [[r c] n2] eqn:FB. cbn [fst snd app] in *.
-  (* 3: and, load, and, or, store *)
+  fold k N S in Ik, HS, Mk, K64, S8, SC.
+  unfold funcstore_tail. fold k. unfold gbind, ginst, ginst0, gret.
+  (* funcbits on the prepared value *)
+  destruct (funcbits_exec fo t envb m r0 nb xr before after BP Lr Rr Rxr) as (env2 & x & A2 & B2 & C2 & D2 & F2 & G2).
+  destruct (funcbits t r0 before after nb) as [[r c] n2] eqn:FB. cbn [fst snd app] in *.
+  (* and, load, and, or, store *)
   set (mk := field_mask w before).
   assert (MaskEq : store_mask (ssize t) before after = mk).
   { unfold store_mask. change M64 with (2 ^ 64). replace (ssize t * 8) with S by (unfold S, sbits; lia).
@@ -317,10 +326,10 @@ Proof.
   assert (Rmk : 0 <= mk < 2 ^ N) by (apply field_mask_range; unfold w; lia).
   assert (Rmk64 : 0 <= mk < 2 ^ 64).
   { pose proof (pow2_le_mono N 64 ltac:(unfold N; lia)). lia. }
-  assert (A12 : agree_below n env env2).
-  { apply agree_trans with (m := Pos.succ n) (e2 := env1); [lia|apply agree_add; lia|exact D2]. }
+  assert (A02 : agree_below n env0 env2).
+  { apply agree_trans with (m := nb) (e2 := envb); [lia|exact A0|exact D2]. }
   assert (Rn2 : read env2 k (RTmp n) = Ok v1).
-  { rewrite (read_agree (Pos.succ n) env1 env2 k (RTmp n) D2) by (simpl; lia). apply read_gss. }
+  { rewrite (read_agree nb envb env2 k (RTmp n) D2) by (simpl; lia). exact Rn. }
   set (v2 := Z.land v1 mk).
   assert (E3 : eval_pure fo env2 (Obin Qbe.Band) k (RTmp n) (Some (mkint mk)) = Ok v2).
   { apply (eval_bin_inst fo env2 Qbe.Band k (RTmp n) (mkint mk) v1 (wrapk k mk)); try assumption.
@@ -331,7 +340,7 @@ Proof.
   assert (Rold : 0 <= old < 2 ^ N) by (apply ext_unit_range; assumption).
   assert (Ra3 : read env3 Kl addr = Ok a).
   { unfold env3. rewrite read_gso by (apply ref_lt_mono with n; [lia|assumption]).
-    rewrite (read_agree n env env2 Kl addr A12 La). exact Ra. }
+    rewrite (read_agree nb envb env2 Kl addr D2) by (apply ref_lt_mono with n; [lia|assumption]). exact Ra. }
   set (env4 := PM.add (Pos.succ n2) (k, old) env3).
   set (nm := 2 ^ N - 1 - mk).
   set (keep := Z.land old nm).
@@ -353,15 +362,12 @@ Proof.
     - apply read_gss.
     - reflexivity. }
   set (env6 := PM.add (Pos.succ (Pos.succ (Pos.succ n2))) (k, v3) env5).
-  assert (V3 : v3 = rmw N before w v old) by reflexivity.
   destruct (mem_store_defined m a (Z.to_nat (ssize t)) u v3 L) as [m' St].
   exists env6, m', x.
   assert (R6r : read env6 k r = Ok x).
   { unfold env6, env5, env4, env3. rewrite !read_gso by (apply ref_lt_mono with n2; [lia|assumption]). exact B2. }
   split.
-  { (* the execution *)
-    cbn [app]. apply (exec_head_pure fo env m n k (Obin Bshl) vr (Some (mkint before)) v1); [exact I|exact E1|].
-    fold env1. apply exec_app_ok with (s1 := (env2, m)); [exact A2|].
+  { apply exec_app_ok with (s1 := (env2, m)); [exact A2|].
     apply (exec_head_pure fo env2 m n2 k (Obin Qbe.Band) (RTmp n) (Some (mkint mk)) v2); [exact I|exact E3|].
     fold env3.
     apply (exec_head_load fo env3 m (Pos.succ n2) k (qload t) addr a u old); try assumption.
@@ -376,12 +382,83 @@ Proof.
     - rewrite SC. apply read_gss.
     - unfold env6, env5, env4. rewrite !read_gso by (apply ref_lt_mono with n; [lia|assumption]). exact Ra3.
     - rewrite SB. exact St. }
-  split; [rewrite <- V3; exact St|].
+  split; [exact St|].
   split.
   { rewrite (mem_load_after_store m a (Z.to_nat (ssize t)) v3 m' St). rewrite S8. reflexivity. }
   split; [exact R6r|]. split; [exact C2|]. split; [|lia].
   unfold env6, env5, env4, env3.
-  repeat (eapply agree_trans with (m := n); [lia| |apply agree_add; lia]). exact A12.
+  repeat (eapply agree_trans with (m := n); [lia| |apply agree_add; lia]). exact A02.
+Qed.
+
+Theorem bits_store_correct fo t env m addr a vr v (n : positive) u before after :
+  bf_pos t before after -> 0 < before + after -> ref_lt n addr -> ref_lt n vr ->
+  read env Kl addr = Ok a -> read env (qbase t) vr = Ok v -> 0 <= v < modk (qbase t) ->
+  mem_load m a (Z.to_nat (ssize t)) = Some u -> 0 <= u < 2 ^ sbits t ->
+  exists env' m' x,
+    exec fo (env, m) (snd (fst (funcstore t addr before after vr n))) = Ok (env', m') /\
+    mem_store m a (Z.to_nat (ssize t)) (rmw (bitsk (qbase t)) before (sbits t - before - after) v
+                      (ext_unit (ssigned t) (sbits t) (bitsk (qbase t)) u)) = Some m' /\
+    mem_load m' a (Z.to_nat (ssize t)) = Some (new_unit t before after v u) /\
+    read env' (qbase t) (fst (fst (funcstore t addr before after vr n))) = Ok x /\
+    x = fb_val (ssigned t) (bitsk (qbase t)) (sbits t) before after
+               (store_reg t after (wrap (bitsk (qbase t)) (v * 2 ^ before))) /\
+    agree_below n env env' /\ (n <= snd (funcstore t addr before after vr n))%positive.
+Proof.
+  intros BP Pos La Lv Ra Rv Hv L Hu. pose proof BP as [BT Hb Ha Hw].
+  destruct (bf_type_facts t BT) as (_ & Ik & HS & _ & PN & Mk & K64 & LB & SB & S8 & SC).
+  set (k := qbase t) in *. set (N := bitsk k) in *. set (S := sbits t) in *.
+  unfold funcstore. rewrite PN. fold k.
+  destruct (Z.eqb_spec (before + after) 0) as [Z0|_]; [lia|].
+  unfold gbind, ginst, gret.
+  (* 1: shl by before *)
+  set (v1 := wrap N (v * 2 ^ before)).
+  assert (E1 : eval_pure fo env (Obin Bshl) k vr (Some (mkint before)) = Ok v1).
+  { apply (eval_shift fo env Bshl k vr v before); try assumption; try reflexivity; [fold N; lia|]. apply ibin_shl. fold N. lia. }
+  assert (Rv1 : 0 <= v1 < modk k) by (rewrite Mk; apply wrap_range; unfold N; lia).
+  set (env1 := PM.add n (k, v1) env).
+  assert (Ra1 : read env1 Kl addr = Ok a) by (unfold env1; rewrite read_gso by assumption; exact Ra).
+  unfold store_reg. fold k N S v1.
+  destruct (store_top t after) eqn:TOP.
+  - (* the member ends at the top of a 1- or 2-byte unit: extend the shifted value first *)
+    assert (Sz : ssize t < 4).
+    { unfold store_top in TOP. apply andb_prop in TOP as [_ T]. apply Z.ltb_lt in T. exact T. }
+    destruct (store_ext_val t v1 BT Sz) as [KW EV]. fold k N S in KW, EV.
+    cbv beta iota.
+    set (xr := ext_unit (ssigned t) S N (wrap S v1)).
+    assert (Rn1 : read env1 Kw (RTmp n) = Ok v1) by (unfold env1; rewrite KW; apply read_gss).
+    assert (E2 : eval_pure fo env1 (Oext (store_ext t)) Kw (RTmp n) None = Ok xr).
+    { unfold xr. rewrite <- EV. apply eval_ext; [exact Rn1|reflexivity|].
+      unfold store_ext. destruct (ssize t =? 1), (ssigned t); exact I. }
+    set (envb := PM.add (Pos.succ n) (Kw, xr) env1).
+    assert (Rxr : 0 <= xr < modk k).
+    { rewrite Mk. apply ext_unit_range; [assumption|]. apply wrap_range. unfold S. lia. }
+    destruct (store_tail_exec fo t env envb m addr a n (Pos.succ (Pos.succ n)) (RTmp (Pos.succ n)) xr v1 u before after BP)
+      as (env' & m' & x & T1 & T2 & T3 & T4 & T5 & T6 & T7); try assumption; try lia.
+    { apply agree_trans with (m := n) (e2 := env1); [lia|apply agree_add; lia|apply agree_add; lia]. }
+    { unfold envb. rewrite read_gso by (apply ref_lt_mono with n; [lia|assumption]). exact Ra1. }
+    { fold k. unfold envb. rewrite read_gso by (simpl; lia). unfold env1. apply read_gss. }
+    { fold k. rewrite KW. unfold envb. apply read_gss. }
+    { simpl. lia. }
+    destruct (funcstore_tail t addr before after (RTmp n) (RTmp (Pos.succ n)) (Pos.succ (Pos.succ n))) as [[rr cc] nn] eqn:FT.
+    cbn [fst snd] in *. exists env', m', x.
+    split.
+    { cbn [app]. apply (exec_head_pure fo env m n k (Obin Bshl) vr (Some (mkint before)) v1); [exact I|exact E1|].
+      fold env1. apply (exec_head_pure fo env1 m (Pos.succ n) Kw (Oext (store_ext t)) (RTmp n) None xr); [exact I|exact E2|].
+      fold envb. exact T1. }
+    split; [exact T2|]. split; [exact T3|]. split; [exact T4|]. split; [exact T5|]. split; [exact T6|lia].
+  - cbv beta iota.
+    destruct (store_tail_exec fo t env env1 m addr a n (Pos.succ n) (RTmp n) v1 v1 u before after BP)
+      as (env' & m' & x & T1 & T2 & T3 & T4 & T5 & T6 & T7); try assumption; try lia.
+    { unfold env1. apply agree_add. lia. }
+    { fold k. unfold env1. apply read_gss. }
+    { fold k. unfold env1. apply read_gss. }
+    { simpl. lia. }
+    destruct (funcstore_tail t addr before after (RTmp n) (RTmp n) (Pos.succ n)) as [[rr cc] nn] eqn:FT.
+    cbn [fst snd] in *. exists env', m', x.
+    split.
+    { cbn [app]. apply (exec_head_pure fo env m n k (Obin Bshl) vr (Some (mkint before)) v1); [exact I|exact E1|].
+      fold env1. exact T1. }
+    split; [exact T2|]. split; [exact T3|]. split; [exact T4|]. split; [exact T5|]. split; [exact T6|lia].
 Qed.
 
 (* ------------------------------------------------------------------ load after store *)
@@ -405,14 +482,15 @@ Proof.
     rewrite <- E at 2. unfold wrap. rewrite Z.mod_pow2_bits_low by lia. reflexivity.
 Qed.
 
-(* the value of the assignment expression: right unless the member ends at the top of a 1- or 2-byte unit *)
-Theorem bits_store_value t before after v u :
-  bf_pos t before after -> 0 <= u < 2 ^ sbits t -> 0 <= v < modk (qbase t) ->
-  (after <> 0 \/ 4 <= ssize t) ->
-  let x := fb_val (ssigned t) (bitsk (qbase t)) (sbits t) before after (wrap (bitsk (qbase t)) (v * 2 ^ before)) in
-  reg_value t x = bf_value (ssigned t) (ssize t) before after v.
+(* the value of the assignment expression: the assigned value reduced to the member's width, at every position
+   (since the fix of bitfield-assign-value-subword-top; store_reg is what made the difference) *)
+Theorem bits_store_value t before after v :
+  bf_pos t before after -> 0 <= v < modk (qbase t) ->
+  let x := fb_val (ssigned t) (bitsk (qbase t)) (sbits t) before after
+                  (store_reg t after (wrap (bitsk (qbase t)) (v * 2 ^ before))) in
+  0 <= x < modk (qbase t) /\ reg_value t x = bf_value (ssigned t) (ssize t) before after v.
 Proof.
-  intros BP Hu Hv Cond x. pose proof BP as [BT Hb Ha Hw].
+  intros BP Hv x. pose proof BP as [BT Hb Ha Hw].
   destruct (bf_type_facts t BT) as (_ & Ik & HS & _ & _ & Mk & K64 & _).
   set (N := bitsk (qbase t)) in *. set (S := sbits t) in *.
   set (v1 := wrap N (v * 2 ^ before)) in *.
@@ -424,26 +502,27 @@ Proof.
     - rewrite !Z.mod_pow2_bits_low by lia. rewrite Z.div_pow2_bits by lia.
       unfold uu, v1, wrap. rewrite !Z.mod_pow2_bits_low by lia. rewrite Z.mul_pow2_bits by lia. f_equal. lia.
     - rewrite !Z.mod_pow2_bits_high by lia. reflexivity. }
-  assert (V : reg_value t x = bf_get (ssigned t) (ssize t) before after uu).
-  { apply (fb_val_field t before after v1 uu BP Huu); [|reflexivity].
-    intros A0. destruct Cond as [C|C]; [contradiction|].
-    (* a 4- or 8-byte unit fills the register: the extension is the identity *)
-    assert (SN : S = N) by (destruct t as [[] []| | | |]; try discriminate; simpl in C; try lia; reflexivity).
-    unfold uu, ext_unit. rewrite SN. assert (W : wrap N v1 = v1) by (apply wrap_id; apply wrap_range; lia).
-    rewrite W. destruct (ssigned t); [|reflexivity]. change (v1 = wrap N (sext S v1)). rewrite SN. rewrite sext_wrap by lia. symmetry. exact W. }
+  assert (V : 0 <= x < modk (qbase t) /\ reg_value t x = bf_get (ssigned t) (ssize t) before after uu).
+  { apply (fb_val_field t before after (store_reg t after v1) uu BP Huu).
+    - intros A0. unfold store_reg, store_top. rewrite A0. cbn [Z.eqb andb].
+      destruct (Z.ltb_spec (ssize t) 4) as [Sz|Sz]; [reflexivity|].
+      (* a 4- or 8-byte unit fills the register: the extension is the identity *)
+      assert (SN : S = N) by (destruct t as [[] []| | | |]; try discriminate; simpl in Sz; try lia; reflexivity).
+      unfold uu, ext_unit. fold N S. rewrite SN. assert (W : wrap N v1 = v1) by (apply wrap_id; apply wrap_range; lia).
+      rewrite W. destruct (ssigned t); [|reflexivity]. rewrite sext_wrap by lia. symmetry. exact W.
+    - unfold store_reg. destruct (store_top t after); [|reflexivity].
+      fold N S. apply ext_unit_congr; assumption. }
+  destruct V as [Rx V]. split; [exact Rx|].
   rewrite V, bf_get_raw. change (8 * ssize t) with S. rewrite Fld. unfold bf_value, bf_width. change (8 * ssize t) with S.
   destruct (ssigned t); [|reflexivity]. apply sext_of_wrap. lia.
 Qed.
 
-(* ... and it is wrong there: `struct { signed char a : 3, f : 5; } s; (s.f = 100)` has the value 100, not 4 *)
-Theorem bits_store_value_refuted :
-  exists t before after v,
-    bf_pos t before after /\ 0 <= v < modk (qbase t) /\
-    reg_value t (fb_val (ssigned t) (bitsk (qbase t)) (sbits t) before after (wrap (bitsk (qbase t)) (v * 2 ^ before)))
-      <> bf_value (ssigned t) (ssize t) before after v /\
-    ~ repr t (bf_value (ssigned t) (ssize t) before after v)
-        (fb_val (ssigned t) (bitsk (qbase t)) (sbits t) before after (wrap (bitsk (qbase t)) (v * 2 ^ before))).
-Proof.
-  exists (SInt I1 true), 3, 0, 100. split; [constructor; (reflexivity || (cbv; congruence))|].
-  split; [cbv; split; congruence|]. split; vm_compute; congruence.
-Qed.
+(* `struct { signed char a : 3, f : 5; } s; (s.f = 100)` has the value 4 (it was 100 before the fix) *)
+Example bits_store_value_top :
+  let t := SInt I1 true in
+  bf_pos t 3 0 /\ store_top t 0 = true /\
+  reg_value t (fb_val (ssigned t) (bitsk (qbase t)) (sbits t) 3 0 (store_reg t 0 (wrap (bitsk (qbase t)) (100 * 2 ^ 3)))) = 4 /\
+  bf_value true 1 3 0 100 = 4 /\
+  (* without the extension: *)
+  reg_value t (fb_val (ssigned t) (bitsk (qbase t)) (sbits t) 3 0 (wrap (bitsk (qbase t)) (100 * 2 ^ 3))) = 100.
+Proof. split; [constructor; (reflexivity || (cbv; congruence))|]. repeat split; vm_compute; reflexivity. Qed.
